@@ -3,16 +3,29 @@
    Language outside the modelled fragment (script expressions, variables, reservations, ...) yields
    `Unsupported`, never a made-up token. *)
 From Coq Require Import String Ascii.
-From Sakura.Model Require Import Base Cursor Length Token.
-From Sakura.Gen Require Import Consts SysFuncRows Messages.
+From Sakura.Model Require Import Base Cursor Length Event Song Token.
+From Sakura.Gen Require Import Consts SysFuncRows Messages VarRows.
 Open Scope Z_scope.
 
 Definition zs (s : string) : list Z := map (fun a => Z.of_N (N_of_ascii a)) (list_ascii_of_string s).
 
 (* song fields read or written at lex time *)
-Record lexstate := mkLex { lx_timebase : Z; lx_logs : list (list ch) }.
+Record lexstate := mkLex { lx_timebase : Z; lx_logs : list (list ch); lx_vars : list (list ch * vval) }.
 Definition lx_add_log (ls : lexstate) (m : list ch) : lexstate :=
-  if SAKURA_MAX_LOGS <=? zlen (lx_logs ls) then ls else mkLex (lx_timebase ls) (lx_logs ls ++ [m]).
+  if SAKURA_MAX_LOGS <=? zlen (lx_logs ls) then ls else mkLex (lx_timebase ls) (lx_logs ls ++ [m]) (lx_vars ls).
+(* variables_get / variables_insert on the global scope: the latest insert wins *)
+Fixpoint vars_get (name : list ch) (vars : list (list ch * vval)) : option vval :=
+  match vars with
+  | [] => None
+  | (n, v) :: r => if list_eqb n name then Some v else vars_get name r
+  end.
+Definition vars_insert (ls : lexstate) (name : list ch) (v : vval) : lexstate :=
+  mkLex (lx_timebase ls) (lx_logs ls) ((name, v) :: lx_vars ls).
+(* init_variables(), from the regenerated table *)
+Definition init_vars : list (list ch * vval) :=
+  map (fun r => match r with
+                | (n, (k, (i, t))) => (n, if k =? 0 then VInt i else if k =? 1 then VStr t 0 else VOther)
+                end) var_rows.
 
 (* ---- decimal rendering of a line number / integer (format!("{}", n)) ---- *)
 Fixpoint dec_digits (fuel : nat) (n : Z) (acc : list ch) : list ch :=
@@ -355,6 +368,79 @@ Fixpoint sysfunc_lookup (name : list ch) (rows : list (list Z * (list Z * (Z * (
   | (n, v) :: r => sysfunc_lookup name r (if list_eqb n name then Some v else acc)
   end.
 
+(* read_args_tokens for a macro call: every argument is a {string} or an integer literal *)
+Definition read_macro_arg (tb : Z) (s : list ch) (ln : Z) : res (option marg * list ch * Z) :=
+  let '(s1, ln1) := skip_space s ln in
+  if eq_char s1 123 then
+    let '(body, s2, ln2) := get_token_nest s1 ln1 123 125 in
+    match s2 with
+    | [] => Ok (Some (MStr body), s2, ln2)
+    | _ => let '(s3, ln3) := skip_space s2 ln2 in
+           if is_operator_char (peek0 s3) && negb (prefixb [47; 47] s3 || prefixb [47; 42] s3)
+           then Unsupported U_EXPR else Ok (Some (MStr body), s3, ln3)
+    end
+  else
+    do r <- read_calc_literal tb s1 ln1;
+    let '(v, s2, ln2) := r in Ok (match v with Some z => Some (MInt z) | None => None end, s2, ln2).
+Fixpoint read_macro_args_loop (fuel : nat) (tb : Z) (s : list ch) (ln : Z) : res (list (option marg) * list ch * Z) :=
+  match fuel with
+  | O => OutOfFuel
+  | S f =>
+      let '(s0, ln0) := skip_space s ln in
+      do r <- read_macro_arg tb s0 ln0;
+      let '(v, s1, ln1) := r in
+      let '(s2, ln2) := skip_space s1 ln1 in
+      if eq_char s2 44 || eq_char s2 58 then
+        do r2 <- read_macro_args_loop f tb (tl s2) ln2;
+        let '(vs, s3, ln3) := r2 in Ok (v :: vs, s3, ln3)
+      else Ok ([v], s2, ln2)
+  end.
+Definition read_macro_args (ls : lexstate) (s : list ch) (ln : Z) : res (list (option marg) * list ch * Z * lexstate) :=
+  let '(s0, ln0) := skip_space s ln in
+  let paren := eq_char s0 40 in
+  let s1 := if paren then tl s0 else s0 in
+  do r <- read_macro_args_loop (S (length s1)) (lx_timebase ls) s1 ln0;
+  let '(vs, s2, ln2) := r in
+  if paren then
+    let '(s3, ln3) := skip_space s2 ln2 in
+    if eq_char s3 41 then Ok (vs, tl s3, ln3, ls)
+    else Ok (vs, s3, ln3, lx_add_log ls (zs "[ERROR](" ++ show_int ln3 ++ zs ") " ++ msg_en_MissingParenthesis))
+  else Ok (vs, s2, ln2, ls).
+
+Definition is_reserved (name : list ch) : bool :=
+  match sysfunc_lookup name sysfunc_rows None with
+  | Some _ => true
+  | None => existsb (list_eqb name) reserved_extra
+  end.
+
+(* check_variables + read_variables (after read_upper_command found no system function):
+   definition `name={text}`, use of a string variable / macro with or without arguments, unknown word *)
+Definition check_variables (ls : lexstate) (cmd : list ch) (s : list ch) (ln : Z)
+  : res (option tok * list ch * Z * lexstate) :=
+  if prefixb [43; 43] s || prefixb [45; 45] s then Unsupported U_EXPR
+  else
+    let '(s1, ln1) := skip_space s ln in
+    if eq_char s1 61 then
+      let '(s2, ln2) := skip_space (tl s1) ln1 in
+      if is_reserved cmd then Unsupported U_VAR
+      else if eq_char s2 123 then
+        let '(body, s3, ln3) := get_token_nest s2 ln2 123 125 in
+        Ok (None, s3, ln3, vars_insert ls cmd (VStr body ln3))
+      else Unsupported U_EXPR
+    else if prefixb (zs ".s(") s1 then Unsupported U_EXPR
+    else
+      match vars_get cmd (lx_vars ls) with
+      | Some (VStr _ _) =>
+          let '(s2, ln2) := skip_space s1 ln1 in
+          if eq_char s2 40 || eq_char s2 123 then
+            do ra <- read_macro_args ls s2 ln2;
+            let '(vs, s3, ln3, ls') := ra in
+            Ok (Some (TValue cmd (Some vs) ln3), s3, ln3, ls')
+          else Ok (Some (TValue cmd None 0), s2, ln2, ls)
+      | Some _ => Unsupported U_VAR
+      | None => Ok (None, s1, ln1, read_error_cmd ls s1 ln1 cmd)
+      end.
+
 (* ---- lex(): the main loop ---- *)
 Definition lex_out := (list tok * lexstate)%type.
 
@@ -403,17 +489,22 @@ Fixpoint lex_f (fuel : nat) (ls : lexstate) (src : list ch) (lineno : Z) : res l
                      let '(w2, s3) := get_word (tl s1) in (word0 ++ [46] ++ w2, s3)
                    else (word0, s1) in
                  match sysfunc_lookup word sysfunc_rows None with
-                 | None => Unsupported U_MACRO
+                 | None =>
+                     do cv <- check_variables ls word s1 ln;
+                     let '(ot, s2, ln2, ls') := cv in
+                     loop n' ls' s2 ln2 harmony (match ot with Some t => acc ++ [t] | None => acc end)
                  | Some (ttype, (argt, _)) =>
                    if ((argt =? 73) || (argt =? 65)) &&
-                      (list_eqb ttype (zs "Time") || list_eqb ttype (zs "PlayFrom") || list_eqb ttype (zs "TimeSignature")) then
+                      (list_eqb ttype (zs "Time") || list_eqb ttype (zs "PlayFrom") || list_eqb ttype (zs "TimeSignature")
+                       || list_eqb ttype (zs "TieMode")) then
                      let '(s2, ln2) := skip_space s1 ln in
                      let s3 := if eq_char s2 61 then tl s2 else s2 in
                      do ra <- read_args_tokens ls s3 ln2;
                      let '(vs, s4, ln4, ls') := ra in
                      let args := map (fun o => match o with Some v => v | None => 0 end) vs in
                      let t := if list_eqb ttype (zs "Time") then TTime args
-                              else if list_eqb ttype (zs "PlayFrom") then TPlayFrom args else TTimeSignature args in
+                              else if list_eqb ttype (zs "PlayFrom") then TPlayFrom args
+                              else if list_eqb ttype (zs "TieMode") then TTieMode args else TTimeSignature args in
                      loop n' ls' s4 ln4 harmony (acc ++ [t])
                    else if (argt =? 73) && (list_eqb ttype (zs "Track") || list_eqb ttype (zs "Channel")
                                        || list_eqb ttype (zs "KeyShift") || list_eqb ttype (zs "TrackKey")
@@ -445,7 +536,7 @@ Fixpoint lex_f (fuel : nat) (ls : lexstate) (src : list ch) (lineno : Z) : res l
                      let t0 := aval_to_i v in
                      let t1 := if t0 <=? 48 then 48 else t0 in
                      let t2 := if t1 >? 32767 then 32767 else t1 in
-                     loop n' (mkLex t2 (lx_logs ls)) s2 ln2 harmony acc
+                     loop n' (mkLex t2 (lx_logs ls) (lx_vars ls)) s2 ln2 harmony acc
                    else if list_eqb ttype (zs "Sub") then
                      let '(s2, ln2) := skip_space s1 ln in
                      let '(block, s3, ln3) := get_token_nest s2 ln2 123 125 in
@@ -467,7 +558,11 @@ Fixpoint lex_f (fuel : nat) (ls : lexstate) (src : list ch) (lineno : Z) : res l
              if true then
                if prefixb [35; 35] s || prefixb [35; 32] s || prefixb [35; 45] s then
                  let '(_, s1, ln1) := get_token_ch c_NL s ln in loop n' ls s1 ln1 harmony acc
-               else Unsupported U_MACRO
+               else
+                 let '(word, s1) := get_word s in
+                 do cv <- check_variables ls word s1 ln;
+                 let '(ot, s2, ln2, ls') := cv in
+                 loop n' ls' s2 ln2 harmony (match ot with Some t => acc ++ [t] | None => acc end)
              else Unsupported U_CHAR
            else if c =? 64 then
              do ra <- read_args_tokens ls r ln;
